@@ -148,17 +148,20 @@ Definition new_conn (sid : bytes) (bs : N) : rconn :=
   let bs' := (if (bs =? 0)%N then ibb_block_size else bs) in
   mkrc sid bs' 0 [] (Z.of_N ibb_max_buffer) true false.
 
-Fixpoint lookup (h : handler) (sid : bytes) : option rconn :=
-  match h with
-  | [] => None
-  | c :: rest => if rc_registered c && bytes_eqb (rc_sid c) sid then Some c else lookup rest sid
-  end.
-
 (* the application's handle on a connection survives deregistration *)
 Fixpoint find_conn (h : handler) (sid : bytes) : option rconn :=
   match h with
   | [] => None
   | c :: rest => if bytes_eqb (rc_sid c) sid then Some c else find_conn rest sid
+  end.
+
+(* Handler.streams[sid].  Session identifiers are not reused within a run (the
+   harness never does; see design/C15.md): the first connection created under
+   a sid is the one the sid denotes. *)
+Definition lookup (h : handler) (sid : bytes) : option rconn :=
+  match find_conn h sid with
+  | Some c => if rc_registered c then Some c else None
+  | None => None
   end.
 
 Fixpoint update (h : handler) (sid : bytes) (f : rconn -> rconn) : handler :=
@@ -265,6 +268,39 @@ Fixpoint reads_of (sid : bytes) (es : list event) (os : list obs) : bytes :=
   | _, _ => []
   end.
 
+(* the data packets for sid that were accepted (acknowledged, or - on the
+   message carrier - not answered with an error), in order, and their bytes *)
+Definition is_ack (r : reply) : bool := match r with RAck | RSilent => true | RErr _ => false end.
+
+Fixpoint accepted_packets (sid : bytes) (es : list event) (os : list obs) : list packet :=
+  match es, os with
+  | EData _ s seq data :: es', OReply r :: os' =>
+      (if bytes_eqb s sid && is_ack r then [mkpkt seq data] else []) ++ accepted_packets sid es' os'
+  | _ :: es', _ :: os' => accepted_packets sid es' os'
+  | _, _ => []
+  end.
+
+Definition payload_of (p : packet) : bytes :=
+  match decode_go (p_data p) with Some d => d | None => [] end.
+
+Definition accepted_bytes (sid : bytes) (es : list event) (os : list obs) : bytes :=
+  concat (map payload_of (accepted_packets sid es os)).
+
+(* what is buffered for the application on sid *)
+Definition buf_of (h : handler) (sid : bytes) : bytes :=
+  match find_conn h sid with Some c => rc_buf c | None => [] end.
+
+(* why (if at all) handlePayload refuses a packet on a connection *)
+Definition refusal (c : rconn) (seq : N) (data : bytes) : option cond :=
+  if rc_rclosed c then Some ItemNotFound
+  else if negb (seq =? rc_seq c)%N then Some UnexpectedRequest
+  else if negb (fits c data) then Some ResourceConstraint
+  else match decode_go data with None => Some BadRequest | Some _ => None end.
+
+(* the events by which a peer delivers a list of packets to sid *)
+Definition deliver (iq : bool) (sid : bytes) (ps : list packet) : list event :=
+  map (fun p => EData iq sid (p_seq p) (p_data p)) ps.
+
 (* ===================================================================== *)
 (* 3. control path: reader / serve loop / close as a transition system     *)
 (* ===================================================================== *)
@@ -272,12 +308,14 @@ Fixpoint reads_of (sid : bytes) (es : list event) (os : list obs) : bytes :=
 Inductive rpc :=
 | PIdle                          (* no Read call in progress *)
 | PChecked (n : nat)             (* found the buffer empty, released the lock; yield point ibb.read.checked *)
+| PRecv (n : nat)                (* blocked in the receive from readReady (nothing queued, not closed) *)
 | PWoken (n : nat) (isopen : bool). (* received from readReady (isopen = false: the channel was closed); ibb.read.woken *)
 
 Inductive lobs :=
 | BReturned (d : bytes) (eof : bool)   (* Read returned d, with io.EOF iff eof *)
 | BParked                              (* Read is at ibb.read.checked *)
 | BWoke                                (* Read is at ibb.read.woken *)
+| BInRecv                              (* Read left ibb.read.checked and blocks in the receive *)
 | BAck | BRefused                      (* outcome of a data packet *)
 | BClosed.
 
@@ -312,11 +350,14 @@ Definition lstep (s : lstate) (l : label) : option lstate :=
   match l, l_pc s with
   | LStart n, PIdle => if n =? 0 then None else Some (read_locked s n)
   | LWait, PChecked n =>
-      if l_closed s then
-        Some (mkls (l_buf s) (l_tok s) true (PWoken n false) (l_delivered s) (l_read s) (BWoke :: l_log s))
-      else if l_tok s then
-        Some (mkls (l_buf s) false false (PWoken n true) (l_delivered s) (l_read s) (BWoke :: l_log s))
-      else None                                  (* blocked in the receive *)
+      (* a value still queued in a closed channel is received before the
+         "closed" indication *)
+      if l_tok s then
+        Some (mkls (l_buf s) false (l_closed s) (PWoken n true) (l_delivered s) (l_read s) (BWoke :: l_log s))
+      else if l_closed s then
+        Some (mkls (l_buf s) false true (PWoken n false) (l_delivered s) (l_read s) (BWoke :: l_log s))
+      else                                       (* nothing queued: block in the receive *)
+        Some (mkls (l_buf s) false false (PRecv n) (l_delivered s) (l_read s) (BInRecv :: l_log s))
   | LResume, PWoken n true => Some (read_locked s n)
   | LResume, PWoken n false =>
       (* channel closed: leave the loop, bytes.Buffer.Read decides *)
@@ -330,18 +371,66 @@ Definition lstep (s : lstate) (l : label) : option lstate :=
       if l_closed s then
         Some (mkls (l_buf s) (l_tok s) true (l_pc s) (l_delivered s) (l_read s) (BRefused :: l_log s))
       else
-        Some (mkls (l_buf s ++ d) true false (l_pc s) (l_delivered s ++ d) (l_read s) (BAck :: l_log s))
+        (* the non-blocking send: a reader blocked in the receive takes the value
+           directly, otherwise it is queued (or dropped when one is queued already) *)
+        match l_pc s with
+        | PRecv n =>
+            Some (mkls (l_buf s ++ d) (l_tok s) false (PWoken n true) (l_delivered s ++ d) (l_read s) (BAck :: l_log s))
+        | _ =>
+            Some (mkls (l_buf s ++ d) true false (l_pc s) (l_delivered s ++ d) (l_read s) (BAck :: l_log s))
+        end
   | LClose, _ =>
-      Some (mkls (l_buf s) (l_tok s) true (l_pc s) (l_delivered s) (l_read s) (BClosed :: l_log s))
+      Some (mkls (l_buf s) (l_tok s) true
+                 (match l_pc s with PRecv n => PWoken n false | pc => pc end)
+                 (l_delivered s) (l_read s) (BClosed :: l_log s))
   | _, _ => None
   end.
 
 Definition lrun := @run lstate label lstep.
 
+(* the observation a step makes *)
+Definition step_obs (s : lstate) (l : label) : option lobs :=
+  match lstep s l with
+  | Some s' => hd_error (l_log s')
+  | None => None
+  end.
+
+(* The pinned tree's Read and notify, kept for the record (the defects C15
+   found): readReady had no capacity, so a wake-up reached the reader only if
+   it was already blocked in the receive, and Read did not test the buffer
+   again after waking. *)
+Definition lstep_pinned (s : lstate) (l : label) : option lstate :=
+  match l, l_pc s with
+  | LStart n, PIdle => if n =? 0 then None else Some (read_locked s n)
+  | LWait, PChecked n =>
+      if l_closed s then
+        Some (mkls (l_buf s) false true (PWoken n false) (l_delivered s) (l_read s) (BWoke :: l_log s))
+      else
+        Some (mkls (l_buf s) false false (PRecv n) (l_delivered s) (l_read s) (BInRecv :: l_log s))
+  | LResume, PWoken n _ =>
+      match l_buf s with
+      | [] => Some (mkls [] false (l_closed s) PIdle (l_delivered s) (l_read s) (BReturned [] true :: l_log s))
+      | b => Some (mkls (skipn n b) false (l_closed s) PIdle (l_delivered s) (l_read s ++ firstn n b)
+                        (BReturned (firstn n b) false :: l_log s))
+      end
+  | LDeliver d, _ =>
+      if l_closed s then
+        Some (mkls (l_buf s) false true (l_pc s) (l_delivered s) (l_read s) (BRefused :: l_log s))
+      else
+        Some (mkls (l_buf s ++ d) false false
+                   (match l_pc s with PRecv n => PWoken n true | pc => pc end)  (* else: the wake-up is dropped *)
+                   (l_delivered s ++ d) (l_read s) (BAck :: l_log s))
+  | LClose, _ =>
+      Some (mkls (l_buf s) false true
+                 (match l_pc s with PRecv n => PWoken n false | pc => pc end)
+                 (l_delivered s) (l_read s) (BClosed :: l_log s))
+  | _, _ => None
+  end.
+
 (* a reader that can make no step of its own *)
 Definition reader_blocked (s : lstate) : bool :=
   match l_pc s with
-  | PChecked _ => negb (l_closed s) && negb (l_tok s)
+  | PRecv _ => true
   | _ => false
   end.
 
@@ -360,7 +449,7 @@ Fixpoint sched_run (s : lstate) (ls : list label) : list sobs :=
                    | [] => SSkip :: sched_run s' rest
                    end
       | None => match l, l_pc s with
-                | LWait, PChecked _ => SBlocked :: sched_run s rest
+                | LWait, PRecv _ => SBlocked :: sched_run s rest
                 | _, _ => SSkip :: sched_run s rest
                 end
       end
@@ -431,7 +520,7 @@ Definition rcase_ok (c : rcase) : bool :=
 Definition lobs_eqb (a b : lobs) : bool :=
   match a, b with
   | BReturned d e, BReturned d' e' => bytes_eqb d d' && Bool.eqb e e'
-  | BParked, BParked | BWoke, BWoke | BAck, BAck | BRefused, BRefused | BClosed, BClosed => true
+  | BParked, BParked | BWoke, BWoke | BInRecv, BInRecv | BAck, BAck | BRefused, BRefused | BClosed, BClosed => true
   | _, _ => false
   end.
 
